@@ -746,9 +746,11 @@ func (v *PolicyVerifier) VerifyRelativeForRef(ctx context.Context, firstEntry, l
 
 		entries = newEntryQueue
 
-		if v.persistentCacheEnabled && v.trackLastVerifiedEntry {
-			v.persistentCache.SetLastVerifiedEntryForRef(fixEntry.RefName, fixEntry.GetNumber(), fixEntry.GetID())
-		}
+		// The fix entry is not recorded as the last verified entry in the
+		// persistent cache: it is only acceptable as the end of this recovery,
+		// its own signature has not been verified, so a later verification
+		// must not resume from it as if it were a verified entry.
+		slog.Debug(fmt.Sprintf("Recovered from invalid state using fix entry '%s'", fixEntry.GetID().String()))
 	}
 
 	return nil
